@@ -220,7 +220,7 @@ impl Scenario for Inbound {
 pub struct Segments;
 
 /// Length of the server->client stream of the session below (header to CloseOk).
-const SEGMENTS_STREAM_LEN: usize = 460;
+const SEGMENTS_STREAM_LEN: usize = 468;
 /// ... and of the short session in which the server closes right behind OpenOk.
 const SEGMENTS_CLOSING_LEN: usize = 175;
 
@@ -401,8 +401,8 @@ impl Scenario for Segments {
                     let chan = u16::from_be_bytes([b[pos + 1], b[pos + 2]]);
                     if chan == 1 && b[pos] == 3 {
                         bodies += 1;
-                        // delivery = body frames 1+2, return = 3, get = 4
-                        if bodies == 2 || bodies == 3 || bodies == 4 {
+                        // delivery = body frames 1+2, return = 3, get = 4+5
+                        if bodies == 2 || bodies == 3 || bodies == 5 {
                             done += 1;
                         }
                     }
